@@ -16,6 +16,18 @@ type Extension interface {
 	GetTrack(stopTimeUpdate *gtfsrt.TripUpdate_StopTimeUpdate) *string
 }
 
+// PerMessageExtension is implemented by extensions that keep state while a single feed
+// message is being parsed.
+//
+// ParseRealtime calls ForMessage once per message and uses the returned extension for that
+// message only, so that state does not leak from one parse into the next and a single
+// extension value can be shared between concurrent parses.
+type PerMessageExtension interface {
+	Extension
+
+	ForMessage() Extension
+}
+
 type UpdateTripResult struct {
 	// Whether this trip should be skipped.
 	ShouldSkip bool
